@@ -75,9 +75,7 @@ func runOne(t *testing.T, c *Case, work, sched *choice.Source, out *wproto.Out, 
 			out.SetAdd("distinct_nontrivial", wproto.Hash(b))
 		}
 	}
-	if id%37 == 0 {
-		out.Sample(map[string]any{"case": id, "what": st.Desc, "faces": st.Faces, "sched_steps": st.Steps, "preemptions": st.Preempt, "tasks": st.Tasks}, 8)
-	}
+	out.SampleKind(c.Algo, map[string]any{"case": id, "what": st.Desc, "faces": st.Faces, "sched_steps": st.Steps, "preemptions": st.Preempt, "tasks": st.Tasks}, 2, 12)
 	out.Tick(64)
 }
 
